@@ -120,6 +120,9 @@ func compareTx(exp *ExpTx, got *SnapTx) (rule, detail string) {
 
 // unitByNext maps an end label to the unit whose commit ends there.
 func (h *History) unitByNext(p Pos) int {
+	if p.File == "" && len(h.Files) > 0 {
+		p.File = h.Files[0].Name // a stream started with an empty file name labels the first file ""
+	}
 	for i, u := range h.Units {
 		if u.Tx != nil && u.Tx.Next == p {
 			return i
@@ -295,6 +298,21 @@ func firstLine(s string) string {
 func checkC06(r *Run) []Violation {
 	var vs []Violation
 	for i, att := range r.Results {
+		// decode failure inside the history (a value the decoder must reject): if the
+		// attempt was not ended by anything else and every byte was delivered, Stream
+		// must have returned an error
+		if att.Master != nil && len(att.Master.Dumps) > 0 && att.Master.Dumps[0].Served && !att.Hang && !att.StepCapped && att.StreamPanic == "" {
+			d := att.Master.Dumps[0]
+			if _, poison, ok := r.sc.Hist.ModelP(Pos{d.File, int64(d.Offset)}); ok && poison >= 0 {
+				benign := att.Plan.Stop == stopNone || att.Plan.Stop == stopEOF
+				for _, c := range att.Causes {
+					benign = benign && (c == "cancel" || c == "eof-packet")
+				}
+				if benign && att.StreamErr == nil && att.PoisonRowsDelivered && att.PacketsDeliv >= att.PacketsTotal {
+					vs = append(vs, Violation{"C06", "stream-nil-on-failure", fmt.Sprintf("the stream contains a value that cannot be decoded (unit %d, %s), every packet was delivered, and Stream returned nil", poison, r.sc.Hist.Units[poison].Desc), i})
+				}
+			}
+		}
 		if att.Hang || att.ErrorBlocked || att.StreamPanic != "" || len(att.Causes) == 0 {
 			continue
 		}
